@@ -126,7 +126,7 @@ Print Assumptions C03_each_request_in_order.
 (* the monitors of the statements above are the ghost fields of the invariant *)
 Theorem C03_monitors_are_ghost : forall tr,
   bringup_phase tr = gh_text (ghost_of tr) /\ strict_phase tr = gh_phase (ghost_of tr).
-Proof. exact (fun tr => conj (bringup_phase_ghost tr) (strict_phase_ghost tr)). Qed.
+Proof. exact monitors_are_ghost. Qed.
 Print Assumptions C03_monitors_are_ghost.
 
 (* Every request goes to the standard service access points, LITERALLY: Slave_Diag DSAP 60, Set_Prm DSAP 61,
@@ -254,3 +254,42 @@ Proof.
      PcTransmit OpOperate].
   eexists. split; vm_compute; reflexivity.
 Qed.
+
+(* ====================================================================================================
+   C03 (phase 3): at the level of the DP MASTER (1..n peripherals, any storage layout).
+   Proofs/DpMasterHistory.v (see Properties/C08.v, C08_master_histories_project): every history of the DP
+   master -- any calls of transmit_telegram / receive_reply / handle_timeout / request_diagnostics() / pi_q
+   writes / enter_state() / take_last_events() respecting the FdlApplication contract `contract_m`, from any
+   master state -- projects for every slot k to a `history` of that slot's peripheral (`proj k log`), so
+   C03_order, C03_each_request_in_order, C03_requests_use_standard_saps and C03_options_faithful hold for
+   every peripheral of every master history.  Spelled out for C03_order: *)
+From PB Require Import DpMaster DpMasterHistory.
+
+Theorem C03_order_master : forall pa bufsize m0 cs m' outs log,
+  1 <= p_max_retry pa ->
+  d_run pa bufsize m0 cs [] = Ok (m', outs, log) ->
+  contract_m None outs = true ->
+  forall k a o i q d, slot m0 k = Some (periph_new a o i q d) ->
+  forall pre h pdu post,
+  proj k log = pre ++ WReq h pdu :: post ->
+  h_dsap h = None ->
+  bringup_phase pre = PhReady /\ strict_phase pre = PhReady /\
+  h = mkHeader a (p_address pa) None None (h_fc h) /\ (exists f, h_fc h = FcRequest f RqSrdHigh).
+Proof. exact order_master. Qed.
+Print Assumptions C03_order_master.
+
+(* the invariant behind all of it, and its step: EVERY peripheral call from EVERY state satisfying the
+   invariant preserves it and emits an event the monitors accept (the same engine as C08_invariant_step);
+   the invariant ties pe_state to the strict phase exactly *)
+Theorem C03_invariant_relates_state_and_phase : forall pa a o p g,
+  Inv pa a o p g ->
+  gh_phase g = match pe_state p with
+               | PsOffline => PhNeedDiag
+               | PsWaitForParam => PhDiagAnswered
+               | PsWaitForConfig => PhPrmAcked
+               | PsValidateConfig => PhCfgAcked
+               | PsPreDataExchange | PsDataExchange => PhReady
+               end /\
+  (gh_text g = gh_phase g \/ (gh_phase g = PhCfgAcked /\ gh_text g = PhReady)).
+Proof. exact state_phase_invariant. Qed.
+Print Assumptions C03_invariant_relates_state_and_phase.
